@@ -262,6 +262,10 @@ func (t *Tokenizer) tokenizeBuffer(buf []byte, last bool) {
 					}
 				}
 			}
+			if !t.exkey {
+				// A key and a colon but no value.
+				t.newError(off, "expected a value, not '}'")
+			}
 			t.starts = t.starts[0:depth]
 			t.handler.ObjectEnd()
 			t.exkey = 0 < len(t.starts) && t.starts[len(t.starts)-1] == objectStart
@@ -423,6 +427,10 @@ func (t *Tokenizer) tokenizeBuffer(buf []byte, last bool) {
 			t.tmp = append(t.tmp, b)
 		case tokenSpc:
 			t.addToken(string(t.tmp))
+			if b == ',' && t.mode == colonMap {
+				// The token was a key, the comma is not what has to follow.
+				off--
+			}
 		case tokenColon:
 			t.addToken(string(t.tmp))
 			if t.mode != colonMap {
